@@ -44,7 +44,25 @@ const HANG_MS: u64 = 5000;
 /// Seed prefixes of family E. `text`/`func` first draw a u64 (8 bytes) to seed the word
 /// generators, so with short seeds every text is empty; the prefix feeds that draw and the
 /// enumerated suffix then drives length and characters.
-const PREFIXES: [&[u8]; 4] = [&[], &[0x00; 8], &[0xff; 8], &[0x01, 0x7f, 0x80, 0xff, 0x00, 0x01, 0x7f, 0x80]];
+const PREFIXES_E: [&[u8]; 4] = [&[], &[0x00; 8], &[0xff; 8], &[0x01, 0x7f, 0x80, 0xff, 0x00, 0x01, 0x7f, 0x80]];
+/// index of the first long prefix (family F)
+const FIRST_LONG_PREFIX: usize = 4;
+/// Seed prefixes: the short ones of family E, then the long ones of family F (enough entropy to keep
+/// choosing the recursive alternative far beyond any configured depth: 64 and 200 equal bytes of
+/// every alphabet byte, and an alternating pattern).
+fn prefixes() -> &'static Vec<Vec<u8>> {
+    static P: std::sync::OnceLock<Vec<Vec<u8>>> = std::sync::OnceLock::new();
+    P.get_or_init(|| {
+        let mut v: Vec<Vec<u8>> = PREFIXES_E.iter().map(|x| x.to_vec()).collect();
+        for b in SEED_ALPHABET {
+            v.push(vec![b; 64]);
+        }
+        v.push(vec![0x01; 200]);
+        v.push(vec![0xff; 200]);
+        v.push((0..64).map(|i| if i % 2 == 0 { 0x01 } else { 0xff }).collect());
+        v
+    })
+}
 
 // ---------------------------------------------------------------------------------------
 // scope
@@ -169,7 +187,7 @@ fn configs() -> Vec<Cfg> {
     add("random={}", "[random]\n".into(), None);
     let vars = ["rL", "rN", "rT", "rA", "rR", "t", "a"];
     for key in ["depth", "size"] {
-        let vals: &[i64] = if key == "depth" { &[0, 1] } else { &[0, 1, 5] };
+        let vals: &[i64] = if key == "depth" { &[0, 1, 4] } else { &[0, 1, 5] };
         for d in vals {
             add(&format!("{key}={d}@root"), format!("[random]\n{key} = {d}\n"), Some(*d));
             add(
@@ -221,6 +239,10 @@ fn configs() -> Vec<Cfg> {
         add(&format!("value={n}@root"), format!("[random]\nvalue = {l}\n"), None);
     }
     add("value=[42,-1]@nat", "[random]\nnat = { value = [\"42\", \"-1\"] }\n".into(), None);
+    add("value=[42]@nat8+int64+nat+float64", "[random]\nnat8 = { value = [\"42\"] }\nint64 = { value = [\"42\"] }\nnat = { value = [\"42\"] }\nfloat64 = { value = [\"42\"] }\nint = { value = [\"42\"] }\n".into(), None);
+    add("value=[42]@label5", "[random]\n\"5\" = { value = [\"42\"] }\n".into(), None);
+    add("value=[42]@labels", "[random]\n\"0\" = { value = [\"42\"] }\n\"1\" = { value = [\"42\"] }\n".into(), None);
+    add("value=[42,7]@labels+nat8", "[random]\n\"0\" = { value = [\"42\", \"7\"] }\n\"1\" = { value = [\"7\", \"42\"] }\nnat8 = { value = [\"42\"] }\n".into(), None);
     add("value=[null]@field1", "[random]\n\"1\" = { value = [\"null\"] }\n".into(), None);
     add("malformed:depth-is-a-string", "[random]\ndepth = \"x\"\n".into(), None);
     // scoped configuration: `func:<method>` and `arg:<i>` tables
@@ -290,6 +312,7 @@ fn build_scope(tier: Tier) -> ScopeDef {
     };
     // ---- FULL: every list of the universe
     let mut full: Vec<usize> = vec![];
+    let mut rec_lists: Vec<usize> = vec![];
     full.push(push(&mut lists, &mut fam, "arity0", &empty, vec![]));
     for t in &t1 {
         full.push(push(&mut lists, &mut fam, "T1:depth<=1", &empty, vec![t.clone()]));
@@ -299,7 +322,9 @@ fn build_scope(tier: Tier) -> ScopeDef {
     }
     for r in &roots {
         for t in [r.clone(), Ty::opt(r.clone()), Ty::vec(r.clone()), Ty::record(vec![(0, r.clone()), (1, r.clone())])] {
-            full.push(push(&mut lists, &mut fam, "recursive", &renv, vec![t]));
+            let ix = push(&mut lists, &mut fam, "recursive", &renv, vec![t]);
+            full.push(ix);
+            rec_lists.push(ix);
         }
     }
     let pair_set: Vec<Ty> = vec![
@@ -338,6 +363,13 @@ fn build_scope(tier: Tier) -> ScopeDef {
         Ty::variant(vec![(0, p(P::Empty))]),
         Ty::variant(vec![(0, p(P::Empty)), (1, p(P::Int))]),
         Ty::record(vec![(0, p(P::Int)), (1, Ty::opt(p(P::Nat8)))]),
+        // one configured literal meets positions of different types inside one argument
+        Ty::record(vec![(0, p(P::Nat8)), (1, p(P::Int64))]),
+        Ty::record(vec![(0, p(P::Nat8)), (1, Ty::record(vec![(0, p(P::Nat)), (1, p(P::Float64))]))]),
+        Ty::vec(Ty::variant(vec![(0, p(P::Nat8)), (1, p(P::Int))])),
+        Ty::record(vec![(0, p(P::Text)), (1, Ty::opt(p(P::Nat8))), (2, Ty::vec(p(P::Nat)))]),
+        Ty::record(vec![(5, p(P::Nat8)), (6, Ty::record(vec![(5, p(P::Int64))]))]),
+        Ty::vec(Ty::record(vec![(5, p(P::Nat8)), (6, Ty::opt(Ty::variant(vec![(5, p(P::Nat)), (7, p(P::Null))])))])),
         s0.clone(),
         roots[1].clone(),
         roots[2].clone(),
@@ -431,8 +463,23 @@ fn build_scope(tier: Tier) -> ScopeDef {
     // E: text-bearing lists x text/width configurations x (8-byte prefix ++ every suffix)
     for &l in &txt {
         for &c in &txt_cfgs {
-            for pre in 1..PREFIXES.len() {
+            for pre in 1..PREFIXES_E.len() {
                 units.push(Unit { list: l, cfg: c, nseeds: seeds_upto(l_txt), prefix: pre, step: false, family: "E:text-lists x text-configs x 3 seed-prefixes" });
+            }
+        }
+    }
+    // F: recursive lists x depth/size configurations at label / definition selectors x long seeds
+    //    (a limit keyed on a label that lies on the recursion cycle must still bound the nesting)
+    let f_cfgs: Vec<usize> = [
+        "default", "depth=0@args", "depth=1@args", "depth=4@args", "depth=4@vars", "size=0@args", "size=1@args", "size=5@args", "depth=0@vars", "depth=1@vars", "size=1@vars", "depth=1@root",
+    ]
+    .iter()
+    .map(|n| by_name(n))
+    .collect();
+    for &l in &rec_lists {
+        for &c in &f_cfgs {
+            for pre in FIRST_LONG_PREFIX..prefixes().len() {
+                units.push(Unit { list: l, cfg: c, nseeds: seeds_upto(1), prefix: pre, step: false, family: "F:recursive-lists x depth/size-configs x long seeds" });
             }
         }
     }
@@ -960,7 +1007,7 @@ fn parse_env_and_types(env_src: &str, tys_src: &str) -> Result<(Env, Vec<Ty>), S
 }
 
 fn seed_of(sc: &ScopeDef, u: usize, i: u64) -> Vec<u8> {
-    let mut s = PREFIXES[sc.units[u].prefix].to_vec();
+    let mut s = prefixes()[sc.units[u].prefix].clone();
     s.extend(&sc.seeds[i as usize]);
     s
 }
@@ -1479,7 +1526,7 @@ fn main() {
     let code = finish(
         &ctx,
         rep,
-        "run = (type environment, argument type list, configuration TOML + scope, entropy bytes); every run executes candid_parser::random::any twice in a worker process on a 8 MiB-stack thread under a 5 s watchdog. Families: A = every type list (arity 0; all depth<=1 types over 11 leaves with opt/vec/record{[],[0],[0,1]}/variant{[],[0],[0,1]}; func/service references; 5 recursive environments as t, opt t, vec t, record{t;t}; 12x12 pairs) x default configuration; B = reduced type lists (36) x every configuration (default, depth/size at root/argument/definition selectors, width, range incl. reversed and full i64, text kinds, value lists matching and mismatching, malformed, scoped tables with 5 scopes); C (thorough) = every type list x every configuration; E = text-bearing lists (text, opt text, vec text, func, record{text;nat8}, (text,text)) x 10 text/width configurations x seeds = one of 3 fixed 8-byte prefixes followed by every enumerated byte string (text draws 8 bytes before anything else, so only these seeds reach the character generators); D = uninhabited/infinitely recursive definitions (t=record{t}, variant{0:t}, vec t, opt t, mutual records, record{nat;t}; as t, opt t, vec t, (nat,t), (t,nat)) x 3 (quick) / 6 (thorough) configurations, each input announced so that a dead worker identifies it. Seeds: ALL byte strings over {00,01,7f,80,ff} up to the family's length. Non-trivial = runs that returned Ok(values) (then clauses a,b,d,e are evaluated); Err runs are checked for determinism only.",
+        "run = (type environment, argument type list, configuration TOML + scope, entropy bytes); every run executes candid_parser::random::any twice in a worker process on a 8 MiB-stack thread under a 5 s watchdog. Families: A = every type list (arity 0; all depth<=1 types over 11 leaves with opt/vec/record{[],[0],[0,1]}/variant{[],[0],[0,1]}; func/service references; 5 recursive environments as t, opt t, vec t, record{t;t}; 12x12 pairs) x default configuration; B = reduced type lists (36) x every configuration (default, depth/size at root/argument/definition selectors, width, range incl. reversed and full i64, text kinds, value lists matching and mismatching, malformed, scoped tables with 5 scopes); C (thorough) = every type list x every configuration; E = text-bearing lists (text, opt text, vec text, func, record{text;nat8}, (text,text)) x 10 text/width configurations x seeds = one of 3 fixed 8-byte prefixes followed by every enumerated byte string (text draws 8 bytes before anything else, so only these seeds reach the character generators); F = the recursive lists x 12 depth/size configurations (at argument/label, definition and root selectors) x seeds = one of 8 long prefixes (64 equal bytes of each alphabet byte, 200 x 01, 200 x ff, 64 alternating 01/ff) followed by every byte string of length <= 1 (enough entropy to keep choosing the recursive alternative; the configured limit must still bound the nesting); D = uninhabited/infinitely recursive definitions (t=record{t}, variant{0:t}, vec t, opt t, mutual records, record{nat;t}; as t, opt t, vec t, (nat,t), (t,nat)) x 3 (quick) / 6 (thorough) configurations, each input announced so that a dead worker identifies it. Seeds: ALL byte strings over {00,01,7f,80,ff} up to the family's length. Non-trivial = runs that returned Ok(values) (then clauses a,b,d,e are evaluated); Err runs are checked for determinism only.",
         &[
             "the generator has no source of nondeterminism besides the entropy slice (fake's text kinds are seeded from it)",
             "R1 typing judgement and R2 strict decoder are correct readings of spec/Candid.md",
